@@ -80,6 +80,30 @@ fn pick_chunk(rng: &mut Rng) -> usize {
     }
 }
 
+/// How far past the buffered data a crash operation goes. Values above `usize::MAX / 2` are
+/// absolute arguments (`advance(usize::MAX - j)`: an argument computed by a subtraction that
+/// underflowed by a few bytes; position + n then wraps in a build without overflow checks).
+fn past_amount(rng: &mut Rng, data_len: usize) -> usize {
+    if rng.chance(1, 6) {
+        match rng.below(4) {
+            0 => usize::MAX,
+            1 => usize::MAX - rng.small(64),
+            2 => usize::MAX - rng.below(data_len + 1),
+            _ => (isize::MAX as usize) + 1 + rng.small(64),
+        }
+    } else {
+        rng.small(200)
+    }
+}
+
+fn past_n(len_before: usize, e: usize) -> usize {
+    if e > usize::MAX / 2 {
+        e
+    } else {
+        len_before + 1 + e
+    }
+}
+
 fn gen_ops(rng: &mut Rng, data_len: usize, crash: bool) -> Vec<ROp> {
     let mut ops = vec![];
     if rng.chance(5, 6) {
@@ -133,8 +157,8 @@ fn gen_ops(rng: &mut Rng, data_len: usize, crash: bool) -> Vec<ROp> {
             }),
             10 => ROp::SetChunk(pick_chunk(rng)),
             11 => ROp::CheckIoError,
-            12 => ROp::AdvancePast(rng.small(200)),
-            _ => ROp::AdvanceWithBufPast(rng.small(200)),
+            12 => ROp::AdvancePast(past_amount(rng, data_len)),
+            _ => ROp::AdvanceWithBufPast(past_amount(rng, data_len)),
         });
     }
     ops
@@ -158,7 +182,7 @@ fn gen_case(rng: &mut Rng, mode: Mode) -> ReaderCase {
     // end of stream: clean EOF, truncation is the same thing here; terminal error at any offset
     if rng.chance(2, 5) {
         let k = if rng.chance(1, 4) { len } else { rng.below(len + 1) };
-        let (kind, os) = crate::source::fault_error(rng.below(14));
+        let (kind, os) = crate::source::fault_error(rng.below(crate::source::FAULT_SELECTORS));
         src.fail_at = Some((k, kind));
         src.fail_os = os;
     }
@@ -208,7 +232,23 @@ fn gen_case(rng: &mut Rng, mode: Mode) -> ReaderCase {
             }
         }
     };
-    let ops = gen_ops(rng, len, mode == Mode::C14);
+    let mut ops = gen_ops(rng, len, mode == Mode::C14);
+    if mode == Mode::C14 && !cfg!(miri) && rng.chance(1, 200_000) {
+        // a chunk size beyond what a single read(2) can transfer (2 GiB), a source that claims a
+        // few bytes more than it was offered: the reader's assert is the only thing between the
+        // claim and the buffer
+        // (one refill with the huge chunk, then back to a small one: a second refill with data in
+        // the buffer would make the Vec double to 4 GiB)
+        let first = match rng.below(3) {
+            0 => ROp::RequestMore,
+            1 => ROp::Request(1 + rng.small(64)),
+            _ => ROp::RequestByte,
+        };
+        let mut head = vec![ROp::SetChunk(*rng.pick(&[0x8000_2000usize, 0x7fff_f000 + 1])), first, ROp::SetChunk(64)];
+        head.extend(ops.drain(..).take(12));
+        ops = head;
+        src.steps.insert(0, Step::Lie(1 + rng.small(4096)));
+    }
     ReaderCase {
         data,
         src,
@@ -381,8 +421,11 @@ impl ReaderProp {
                     && Some(e.kind()) == s.cfg.fail_at.map(|f| f.1)
                     && e.to_string() == s.fail_msg()
                     // the parked error is the source's error object, not a copy of its text
-                    && (s.cfg.fail_os.is_some()
-                        || crate::source::payload_of(e) == s.cfg.fail_at.map(|f| f.0))
+                    && match s.cfg.fail_os {
+                        Some(c) if c >= 0 => true,
+                        Some(c) => crate::source::lib_payload_of(e) == Some(c),
+                        None => crate::source::payload_of(e) == s.cfg.fail_at.map(|f| f.0),
+                    }
             }
             None => !want_err,
         };
@@ -416,6 +459,8 @@ fn op_name(op: &ROp) -> String {
         ROp::SetMarkTo(p) => format!("set_mark_to_position({p})"),
         ROp::SetChunk(c) => format!("set_chunk_size({c})"),
         ROp::CheckIoError => "check_io_error()".into(),
+        ROp::AdvancePast(e) if *e > usize::MAX / 2 => format!("advance({e:#x})"),
+        ROp::AdvanceWithBufPast(e) if *e > usize::MAX / 2 => format!("advance_with_buf({e:#x})"),
         ROp::AdvancePast(e) => format!("advance(len+1+{e})"),
         ROp::AdvanceWithBufPast(e) => format!("advance_with_buf(len+1+{e})"),
     }
@@ -685,11 +730,11 @@ impl Prop for ReaderProp {
                         ))
                     }
                     ROp::AdvancePast(e) => {
-                        r.advance(len_before + 1 + e);
+                        r.advance(past_n(len_before, e));
                         None
                     }
                     ROp::AdvanceWithBufPast(e) => {
-                        let _ = r.advance_with_buf(len_before + 1 + e).len();
+                        let _ = r.advance_with_buf(past_n(len_before, e)).len();
                         None
                     }
                 }
